@@ -199,7 +199,7 @@ fn run_variants(c: &CliCase, expected: &str, dir: &std::path::Path, obs: &mut Ob
             Ok(o) => {
                 runs += 1;
                 let written = std::fs::read(&outp).unwrap_or_default();
-                if o.status != 0 || written != expected.as_bytes() || !o.stdout.is_empty() {
+                if o.status != 0 || written != expected.as_bytes() {
                     return fail(format!("{}: exit {}, stdout {:?}, output file contains {:?}", describe(&args, ""), o.status, truncate(&String::from_utf8_lossy(&o.stdout), 300), truncate(&String::from_utf8_lossy(&written), 1200)));
                 }
             }
